@@ -152,7 +152,7 @@ def sampling_support(ctx, case, out, p):
         # outside the premise and are skipped (counted)
         TK = out["tmpf"].values + 273.15
         vmax = np.maximum(out["tmpf_var"].values, out["tmpb_var"].values) if case.f.double else out["tmpf_var"].values
-        small = (vmax ** 2 / TK ** 2) <= 0.02 * b
+        small = ((vmax ** 2 / TK ** 2) <= 0.02 * b) & (vmax <= (0.02 * TK) ** 2)   # ... and a standard deviation of at most 2% of the absolute temperature
         ctx.count(f"sampling-support-cells-skipped-not-small-noise[{k}]", int(np.sum(m & ~small)))
         m &= small
         if not m.any():
@@ -218,7 +218,7 @@ def run(ctx):
                          "percentiles recomputed from the exposed samples, all 16 (double) / 4 (single) flag combinations executed; thorough: mc_var vs propagated variance at n = 2e4")
     ctx.trusted += ["harness vlib/props/c08.py", "scipy.stats / dask.random / np.random generators are outside the model"]
     ctx.assumptions += ["convergence of the sample variance to the propagated variance is SAMPLING SUPPORT (fixed seed, 12% threshold at n = 2e4), not a theorem",
-                        "'small noise' = cells where the second-order variance v^2/T^2 is below 2% of the compared variance"]
+                        "'small noise' = cells whose propagated standard deviation is at most 2% of the absolute temperature and whose second-order variance v^2/T^2 is below 2% of the compared variance"]
     run_params(ctx, gen_params(ctx))
 
 
